@@ -43,7 +43,39 @@ func locksets(p *core.Prog, f *ssa.Function) *lockInfo {
 	if li, ok := lockCache[f]; ok {
 		return li
 	}
-	g := graph(p, f)
+	return locksetsOn(graph(p, f), f)
+}
+
+// locksetWith is locksetAt for a graph built outside a core.Prog (engine controls).
+func locksetWith(g *ssax.Graph, f *ssa.Function, at ssa.Instruction) map[string]bool {
+	li, ok := lockCache[f]
+	if !ok {
+		li = locksetsOn(g, f)
+	}
+	s, ok := li.in[at.Block().Index]
+	if !ok {
+		return nil
+	}
+	r := map[string]bool{}
+	for k := range s {
+		r[k] = true
+	}
+	for _, i := range at.Block().Instrs {
+		if i == at {
+			break
+		}
+		if k, acq, ok := lockOp(i); ok {
+			if acq {
+				r[k] = true
+			} else {
+				delete(r, k)
+			}
+		}
+	}
+	return r
+}
+
+func locksetsOn(g *ssax.Graph, f *ssa.Function) *lockInfo {
 	li := &lockInfo{in: map[int]map[string]bool{}, g: g}
 	lockCache[f] = li
 	if len(f.Blocks) == 0 {
